@@ -101,11 +101,30 @@ def part_levinson(chk, cplx, order, r0set, parts, simulate=None):
             'replay': lambda st: replay_levinson(chk, st, cplx), 'after': after}
 
 
+def sampled_jobs(chk):
+    """thorough tier: orders up to 6 / complex order 4 with larger lag ranges; the space is too large to
+    enumerate, so a state constraint keeps a pseudo-random 1/K of the prefixes beyond length 3 (the kept
+    set depends on VERIF_SEED); every kept state is still checked and replayed exactly."""
+    js = []
+    for cplx, order, parts, k in ((False, 6, '-3..3', 3), (True, 4, '-2..2', 5)):
+        mod = ('---- MODULE MC_LevSampled ----\nEXTENDS Levinson\nPartsBig == %s\n'
+               'HashSeq(s) == LET F[i \\in 0..Len(s)] == IF i = 0 THEN 0 ELSE F[i - 1] + i * (s[i][1][1] + 3 * s[i][2][1] + 7) IN F[Len(s)]\n'
+               'Sampled == Len(r) <= 3 \\/ (HashSeq(r) + %d) %% %d = 0\n====\n' % (parts, chk.seed, k))
+        cfg = tlc._cfg_text(constants={'MaxOrder': order, 'R0Set': {2, 3, 5}, 'Parts': '<- PartsBig', 'Complex': cplx},
+                            invariants=['ToeplitzEquation', 'ProductFormula', 'ReflectionBound', 'Stable', 'MinorCheck'],
+                            constraint='Sampled')
+        js.append({'module': 'MC_LevSampled', 'cfg': cfg, 'part': 'levinson-sampled-' + ('complex' if cplx else 'real'),
+                   'replay': (lambda st, c=cplx: replay_levinson(chk, st, c)), 'kw': {'extra_files': {'MC_LevSampled.tla': mod}, 'workers': 8}})
+    return js
+
+
 def run(chk):
     from . import C10_toeplitz, C10_obs
     quick = chk.tier == 'quick'
     js = [part_levinson(chk, False, 4, [1, 2, 3], 'PartsQ' if quick else 'PartsT', None),
           part_levinson(chk, True, 3, [1, 2] if quick else [1, 2, 3], 'PartsC' if quick else 'PartsCT')]
+    if not quick:
+        js += sampled_jobs(chk)
     js += C10_toeplitz.jobs(chk)
     core.run_jobs(chk, js)
     C10_obs.run(chk)
